@@ -163,11 +163,42 @@ func ruleLiteralSource(p *Prog, r *Report) {
 	}
 	sort.Strings(fns)
 	for _, name := range fns {
+		key := rule + ":sml." + name
+		if p.Func("sml", "(*parser)."+name) == nil {
+			// another name or shape: decide from the dispatcher, per keyword
+			kws := map[string][]string{"parseFloat": {"F4", "F8"}, "parseInt": {"I1", "I2", "I4", "I8"}, "parseUint": {"U1", "U2", "U4", "U8"}, "parseBinary": {"B"}}[name]
+			used := map[string]bool{}
+			okAll := true
+			for _, kw := range kws {
+				calls, ok := keywordCalls(p, kw)
+				if !ok {
+					okAll = false
+				}
+				for _, c := range calls {
+					if strings.HasPrefix(c.callee, "strconv.") && c.in != "parseDataItemSize" {
+						used[strings.TrimPrefix(c.callee, "strconv.")] = true
+					}
+				}
+			}
+			var l []string
+			for u := range used {
+				l = append(l, u)
+			}
+			sort.Strings(l)
+			switch {
+			case !okAll:
+				r.unk(rule, key, "", "neither (*parser)."+name+" nor an evaluable dispatcher found")
+			case len(l) == 1 && l[0] == want[name]:
+				r.ok(rule, key, "", fmt.Sprintf("evaluated from the dispatcher for the keywords %v: literals are read by strconv.%s only", kws, want[name]))
+			default:
+				r.bad(rule, key, "", fmt.Sprintf("literals of this item type are read by strconv.%s; the item's values must come from strconv.%s alone (an extra integer path loses -0 and exponent forms, an extra float path loses integer precision)", strings.Join(l, " and "), want[name]))
+			}
+			continue
+		}
 		fn := p.MustFunc(r, "sml", "(*parser)."+name)
 		if fn == nil {
 			continue
 		}
-		key := rule + ":sml." + name
 		used := map[string]bool{}
 		var walk func(f *ssa.Function, d int)
 		seen := map[*ssa.Function]bool{}
